@@ -659,6 +659,44 @@ def idle_reset(ctx, rule="R-IDLE-RESET"):
                 ctx.violated(rule, fn, inst, "the requester / pointer of the running transaction is cleared while the state stays %s: the admission "
                              "guard no longer knows whom the transaction belongs to, and a DM14 from another address is taken for the next message "
                              "of the running transaction" % (pretty(st[-1]) if st else "unchanged (not IDLE)"), clr[0][1].node)
+    # third clause: the identity is BOUND when a transaction starts - on every path of parse_dm14 that leaves IDLE, each identity field
+    # the admission guard compares with the frame holds that frame's value afterwards (otherwise the guard has nothing to compare with)
+    cmpd = {}
+    for r in runs(ctx, g):
+        for gg, p in r.guards():
+            for x in walk(gg):
+                if x[0] == "cmp" and x[1] == "==" and ("c", None) not in (x[2], x[3]):
+                    for a, b in ((x[2], x[3]), (x[3], x[2])):
+                        if a[0] == "attr" and a[1] == SELF and a[2] in ident and (contains(b, ("p", "sa")) or contains(b, ("p", "data"))):
+                            cmpd[a[2]] = b
+    nb = 0
+    for r in runs(ctx, g):
+        if r.term in ("raise", "exc"):
+            continue
+        gl = lits(r.guards())
+        if not any(p and x == mk_cmp("==", field("state"), idle) for x, p in gl):
+            continue
+        st = [e.value for _, e in r.effects() if e.kind == "store" and e.target == field("state")]
+        if not st or st[-1] == idle:
+            continue
+        nb += 1
+        last = {}
+        for _, e in r.effects():
+            if e.kind == "store" and e.target[0] == "attr" and e.target[1] == SELF and e.target[2] in cmpd:
+                last[e.target[2]] = e
+        for fld, frame_val in sorted(cmpd.items()):
+            inst = "%s.parse_dm14 [IDLE]: starting a transaction binds self.%s to the frame" % (S, fld)
+            e = last.get(fld)
+            if e is None or e.value == ("c", None):
+                ctx.violated(rule, g, inst, "the request is taken on (state becomes %s) but self.%s %s: the admission guard compares later frames with it, "
+                             "so a DM14 from another requester / for another pointer is not recognised as foreign and joins the running transaction" % (
+                                 pretty(st[-1]), fld, "is not stored" if e is None else "is stored as None"), g.node)
+            elif not (contains(e.value, ("p", "sa")) or contains(e.value, ("p", "data"))):
+                ctx.violated(rule, g, inst, "self.%s is set to %s, not to the value of the frame that starts the transaction" % (fld, pretty(e.value)[:50]), e.node)
+            else:
+                ctx.holds(rule, inst)
+    if cmpd and nb == 0:
+        ctx.unknown(rule, "no path of parse_dm14 leaving IDLE found")
 
 
 def _case_label(r):
